@@ -1011,7 +1011,6 @@ func globalConstMap(p *core.Prog, m ssa.Value) map[int64]int64 {
 	return out
 }
 
-
 // staleNow: for deadline.Sub(t), t must be time.Now() taken in the same
 // function (what time.Until does); an instant handed in from elsewhere does not
 // deduct the time spent since it was taken.
